@@ -155,6 +155,7 @@ class World(object):
         self.rest_log = None
         self.budget = None        # executed-lines budget per delivered chunk (harness/meter.py); None = not metered
         self.last_work = 0
+        self.last_fired = ''
 
     # ------------------------------------------------------------------ helpers
     @staticmethod
@@ -301,7 +302,14 @@ class World(object):
         elif k == 'fire':
             self.guarded(self.timer(ev['t']).fire)
         elif k == 'firedue':      # drift mode: fire whatever real call is due first
-            self.guarded(self.due_calls()[0].fire)
+            dc = self.due_calls()[0]
+            self.last_fired = ''
+            for t in ('cr', 'hold', 'ka', 'idle'):
+                if self.timer(t) is dc:
+                    self.last_fired = t
+            self.guarded(dc.fire)
+        elif k == 'coop':
+            pass                      # marker: from here on the environment is cooperative
         elif k == 'stop':
             self.rest('GET', 'manual-stop')
         elif k == 'start':
